@@ -1131,10 +1131,17 @@ func (p *PubSub) handleDeadPeers() {
 		q.Close()
 		delete(p.peers, pid)
 
-		p.clearPeerFromTopicsState(pid)
+		// The topic state is learnt from the peer's stream to us. While the peer is
+		// still connected that stream may well be alive, and the peer will not
+		// announce its subscriptions on it again; onClosedIncomingStream clears the
+		// state when it goes away.
+		connected := p.host.Network().Connectedness(pid) == network.Connected
+		if !connected {
+			p.clearPeerFromTopicsState(pid)
+		}
 		p.rt.OnClosedOutboundStream(pid)
 
-		if p.host.Network().Connectedness(pid) == network.Connected {
+		if connected {
 			backoffDelay, err := p.deadPeerBackoff.updateAndGet(pid)
 			if err != nil {
 				p.logger.Debug("error updating backoff", "err", err, "peer", pid)
